@@ -132,6 +132,96 @@ class CallGraph:
                     self.out[i.n].append(Edge(i.n, n, bb, 'drop'))
             for bb, n in i.ctors:
                 self.out[i.n].append(Edge(i.n, n, bb, 'ctor'))
+        self._link_wrapped_closures()
+
+    def _link_wrapped_closures(self):
+        """A generic wrapper such as `impl<F: FnMut(..)> AttributeGetter for AttrFnGetter<F>` is only instantiated through
+        vtables, so its monomorphic copies are not in the instance set and its `(self.f)(..)` call is an unresolved Fn-trait
+        call on the type parameter.  Link that call to every closure the wrapper type is instantiated with anywhere in the
+        crate.  Which closures those are is computed by propagation: (1) a closure value passed to a call whose callee is
+        instantiated with a closure type seeds (callee head, closure type string); (2) a monomorphic instance that mentions
+        the type string hands its closures on to every callee that mentions the same type string (e.g.
+        set_variable_getter::<_, C> -> AttrFnGetter::<C>::new).  Macro-generated closures share one type string: they are
+        merged, an over-approximation in the spirit of RTA."""
+        db = self.db
+        from .facts import Facts
+        rx_head = re.compile(r'([A-Za-z_][\w:]*?)(?:::)?<')
+        rx_ty = re.compile(r'\{closure@[^}]*\}')
+        def heads_of(full):
+            """generic heads (path before a `<`) of a full instance path"""
+            return {m.group(1).rstrip(':') for m in rx_head.finditer(full) if m.group(1) and not m.group(1).startswith('std::ops')}
+        def closure_paths(sym, acc):
+            if isinstance(sym, tuple) and sym:
+                if sym[0] == 'agg' and len(sym) > 2 and sym[1] == 'closure':
+                    acc.add(sym[2])
+                for x in sym:
+                    if isinstance(x, tuple):
+                        closure_paths(x, acc)
+            return acc
+        M = collections.defaultdict(set)       # (head, closure type string) -> closure instances
+        # (1) seeds
+        for bid, raw in db.bodies.raw.items():
+            if '{closure@' not in raw:
+                continue
+            b = db.bodies[bid]
+            F = None
+            for c in b.calls():
+                full = c.callee_full
+                tys = rx_ty.findall(full)
+                if not tys:
+                    continue
+                F = F or Facts(db, b)
+                acc = set()
+                for a in c.args:
+                    closure_paths(F.sym_operand(a), acc)
+                insts = {t for cp in acc for t in self.by_path.get(cp, ())}
+                if not insts:
+                    continue
+                for h in heads_of(full):
+                    for ty in tys:
+                        M[(h, ty)] |= insts
+        # (2) propagation along resolved calls between instances that mention the same closure type
+        with_ty = [i for i in db.instances.values() if '{closure@' in i.full]
+        changed = True; rounds = 0
+        while changed and rounds < 12:
+            changed = False; rounds += 1
+            for i in with_ty:
+                tys = set(rx_ty.findall(i.full))
+                hs = heads_of(i.full)
+                for bb, entry in i.calls.items():
+                    kind, n, path, full = entry
+                    if n < 0 or '{closure@' not in full:
+                        continue
+                    ctys = set(rx_ty.findall(full)) & tys
+                    if not ctys:
+                        continue
+                    chs = heads_of(full)
+                    for ty in ctys:
+                        src = set()
+                        for h in hs:
+                            src |= M.get((h, ty), set())
+                        if not src:
+                            continue
+                        for ch in chs:
+                            if not src <= M[(ch, ty)]:
+                                M[(ch, ty)] |= src; changed = True
+        by_head = collections.defaultdict(set)
+        for (h, ty), v in M.items():
+            by_head[h] |= v
+        # (3) the unresolved Fn-trait call of the generic wrapper
+        for i in db.instances.values():
+            for bb, entry in i.calls.items():
+                kind, n, path, full = entry
+                if kind != 'unresolved' or not re.match(r'^std::ops::(Fn|FnMut|FnOnce)::call', path):
+                    continue
+                st = full[1:].split(' as ')[0] if full.startswith('<') else ''
+                if not _is_param(st):
+                    continue
+                heads = set(re.findall(r'([A-Za-z_][\w:]*?)(?:::)?<%s[,>]' % re.escape(st), i.path))
+                for h in heads:
+                    for t in by_head.get(h.rstrip(':'), ()):
+                        self.out[i.n].append(Edge(i.n, t, bb, 'cha'))
+                        self.n_dyncb += 1
 
     # ------------------------------------------------------------ queries
     def instances_matching(self, pattern):
